@@ -38,6 +38,8 @@ func runC04(c *Ctx) {
 	ruleSendOnce(c, p, roles, "C04.send-once")
 	ruleWaiterWoken(c, p, roles, "C04.waiter-woken")
 	ruleDeadlineKind(c, p, roles, "C04.deadline-kind")
+	ruleNoLockAcrossIO(c, p, "C04.lock-io")
+	ruleReadTimeoutSource(c, p, "C04.readtimeout-source")
 	if hg := handshakeGoroutine(c, p); hg != nil {
 		ruleAddendum(c, p, "C04.addendum", hg, nil, true)
 	}
